@@ -619,6 +619,41 @@ def case_bigtable(tag, nfun, nlines, extra=0, binary=True, stmt="  k++;\n", ninc
     return [m.cmd()] + ([e.cmd()] if nincl else []) + run + (["unload o1"] + run if binary else [])
 
 
+def case_manyruns(tag, nlines, per=400, tail=0, binary=False):
+    """a very long source with very little code per line: array literals with one element per line (`  z,` = about two
+    bytes of code and one 3 byte run each), `per` lines per function (the parser's stack limits one list).  With more
+    than about 21 800 such lines the line tables are larger than 65535 bytes (`file_info[0]`, their size, is an
+    unsigned short) while the code stays far below 64 KB.  The failing statement is the LAST code of the program
+    (`tail` more element lines in front of it inside go()), i.e. behind every run."""
+    d = "/c18/%s" % tag
+    m = Src("%s/m.c" % d)
+    m.text(("#pragma save_binary\n" if binary else "") + "int x_;\nvoid set_oid(string s) {}\n")
+    i = 0
+    fn = 0
+    while i < nlines:
+        k = min(per, nlines - i)
+        m.text("mixed *pad%d(int z) { return ({\n" % fn)
+        m._flush()
+        m.toks.append(hx("  z,\n" * k))
+        m.line += k
+        m.text("}); }\n")
+        i += k
+        fn += 1
+    m.text("int go(int k) {\n  mixed *t_;\n")
+    if tail:
+        m.text("  t_ = ({\n")
+        m._flush()
+        m.toks.append(hx("  k,\n" * tail))
+        m.line += tail
+        m.text("  });\n")
+    ln = m.line
+    m.text("  x_ = 10 / k;\n  return 0;\n}\n")
+    p, o = d.lstrip("/") + "/m.c", d + "/m"
+    exp = "expect kind=plain file=%s lines=%d-%d program=%s object=%s trace=go@%s@%s@%s@%d-%d" % (p, ln, ln, p, o, p, o, p, ln, ln)
+    run = ["load o1 %s/m" % d, "apply o1 go", exp, "dump o1"]
+    return [m.cmd()] + run + (["unload o1"] + run if binary else [])
+
+
 def case_deep_include(tag, depth, rng=None, refuse=False):
     """include chain m.c -> d1.h -> ... -> d<depth>.h; function f<i> is defined in d<i>.h BEHIND the nested #include
     (so every level is resumed after a pop) and calls f<i+1>; the deepest one fails.  With `refuse` the chain is one
@@ -714,7 +749,7 @@ class C18(Prop):
     id = "C18"
     no_shrink = True   # cases are reported exactly as generated (lines depend on each other)
     title = "Runtime errors are reported at the right file and line with a correct trace"
-    lean_modules = ["NV.C18.Props", "NV.C18.PropsCompile", "NV.C18.PropsDump", "NV.C18.PropsOracle", "NV.C18.PropsInit", "NV.C18.PropsLex", "NV.C18.Witness", "NV.C18.SourceTexts",
+    lean_modules = ["NV.C18.Props", "NV.C18.PropsCompile", "NV.C18.PropsDump", "NV.C18.PropsOracle", "NV.C18.PropsInit", "NV.C18.PropsLex", "NV.C18.PropsBound", "NV.C18.Witness", "NV.C18.SourceTexts",
                     "NV.C18.SourceTexts2"]
     theorems = ["NV.C18.line_roundtrip_raw", "NV.C18.line_roundtrip", "NV.C18.long_statement_ok",
                 "NV.C18.file_roundtrip", "NV.C18.file_roundtrip_ids", "NV.C18.file_roundtrip_partial",
@@ -725,10 +760,10 @@ class C18(Prop):
                 "NV.C18.compile_roundtrip", "NV.C18.abs_pos", "NV.C18.abs_mono",
                 "NV.C18.frame_kinds_exhaustive", "NV.C18.dump_trace_matches_svalue_trace", "NV.C18.dtText_spec",
                 "NV.C18.locText_of_ok", "NV.C18.dump_trace_args_lines", "NV.C18.dump_trace_ret_heart_beat",
-                "NV.C18.lex_push_agrees", "NV.C18.lex_pop_agrees", "NV.C18.lex_final_agrees", "NV.C18.node_line_agrees", "NV.C18.translate_eq_positions", "NV.C18.init_block_roundtrip", "NV.C18.placeNotes_runFrom", "NV.C18.findRun_append_out", "NV.C18.file_roundtrip_global_include", "NV.C18.psizeRejects_iff", "NV.C18.pass2_agrees", "NV.C18.source_statements_agree2"]
+                "NV.C18.lex_push_agrees", "NV.C18.lex_pop_agrees", "NV.C18.lex_final_agrees", "NV.C18.node_line_agrees", "NV.C18.translate_eq_positions", "NV.C18.init_block_roundtrip", "NV.C18.placeNotes_runFrom", "NV.C18.findRun_append_out", "NV.C18.file_roundtrip_global_include", "NV.C18.scan_unbounded", "NV.C18.scan_bound_harmless", "NV.C18.size_field_exact", "NV.C18.psizeRejects_iff", "NV.C18.pass2_agrees", "NV.C18.source_statements_agree2"]
     witness_theorems = ["NV.C18.file_roundtrip_Full_false", "NV.C18.line_roundtrip_Full_false",
                         "NV.C18.reinclude_wrong", "NV.C18.reinclude_repaired", "NV.C18.wide_wrong", "NV.C18.signed_short_wrong",
-                        "NV.C18.init_block_only_noted", "NV.C18.init_replay", "NV.C18.heart_beat_ret_before_fix"]
+                        "NV.C18.init_block_only_noted", "NV.C18.init_replay", "NV.C18.heart_beat_ret_before_fix", "NV.C18.bounded_scan_fails_above_64k"]
     consts = [("aProgram", "A_PROGRAM"), ("aInitializer", "A_INITIALIZER"),
               ("frameFunction", "FRAME_FUNCTION"), ("frameFunp", "FRAME_FUNP"), ("frameCatch", "FRAME_CATCH"),
               ("frameFake", "FRAME_FAKE"), ("frameMask", "FRAME_MASK"),
@@ -963,6 +998,13 @@ class C18(Prop):
         g1, c1 = self._loop_guard(first, r"line_tmp", r"\*\s*p1", "translate_absolute_line:pass1")
         fb = self._body(sim, "static int find_line", "find_line")
         g2, c2 = self._loop_guard(fb, r"offset", r"\*\s*lns", "find_line:scan")
+        # find_line: is the walk over the runs bounded by an end pointer, and where does that pointer come from?
+        uses_end = re.search(r"lns_end|file_info\s*\[\s*0\s*\]", fb)
+        m_end = re.search(r"lns_end\s*=\s*\(unsigned char \*\)\s*progp->file_info\s*\+\s*progp->file_info\s*\[\s*0\s*\]\s*;", fb)
+        m_chk = re.search(r"lns\s*\+=\s*3\s*;\s*if\s*\(\s*lns\s*>=\s*lns_end\s*\)\s*return\s+4\s*;", re.sub(r"/\*.*?\*/", "", fb, flags=re.S))
+        if uses_end and not (m_end and m_chk):
+            raise X.TieBroken("find_line:scan-bound", "find_line uses an end pointer / file_info[0] in a shape that is not understood")
+        scan_bounded = bool(m_end and m_chk)
         # find_line: `if (offset > (int) progp->program_size)` => "(no line numbers)"
         mps = re.search(r"if\s*\(\s*offset\s*(<=|>=|==|!=|<|>)\s*\(int\)\s*progp->program_size\s*\)", fb)
         if not mps:
@@ -1000,6 +1042,10 @@ class C18(Prop):
         out.append("def pass1Continues (a : Int) (b : Int) : Bool := decide (%s)" % g1)
         out.append("/-- C (src/simulate.c, find_line): `%s` -/" % c2)
         out.append("def scanContinues (a : Int) (b : Int) : Bool := decide (%s)" % g2)
+        out.append("/-- C (src/simulate.c, find_line): does the walk over the runs stop at the end pointer `(unsigned char *) file_info +\n"
+                   "    file_info[0]` (`if (lns >= lns_end) return 4;` after every `lns += 3`)?  %s -/"
+                   % ("YES: " + m_end.group(0) if scan_bounded else "no such test in the source"))
+        out.append("def scanBounded : Bool := %s" % ("true" if scan_bounded else "false"))
         out.append("/-- C (src/simulate.c, find_line): `%s` — is the offset rejected (\"(no line numbers)\")? -/" % mps.group(0))
         out.append("def psizeRejects (a : Int) (b : Int) : Bool := decide (a %s b)" % self.LEAN_OP[mps.group(1)])
         out.append("/-- C (lib/lpc/program.c, second pass of translate_absolute_line): `%s` inside `%s`: does an earlier segment of\n"
@@ -1068,10 +1114,16 @@ class C18(Prop):
 
     def generate(self, rng, n, tier):
         out = []
-        if tier == "thorough":
+        if tier in ("thorough", "search"):
+            # LARGE programs around the 16 bit boundaries of the tables, the failing statement behind every run:
             # 64684 bytes of code, line tables of 65.7 KB (file_info[0] wrapped), 21.7 thousand runs, 96 file ids
             out.append(E.Case("g-bigtable", case_bigtable("g_bigt", 43, 500, 0, binary=False, nincl=rng.range(96, 120)),
                               {"fail": "div", "origin": "generated", "long": 1}))
+            # one element per line: line tables just below / just above / far above 65535 bytes with 40-60 KB of code
+            for i, nl in enumerate((21700 + rng.range(0, 60), 21850 + rng.range(0, 200), 23000 + rng.range(0, 6000))):
+                out.append(E.Case("g-manyruns%d" % i, case_manyruns("g_runs%d" % i, nl, per=rng.range(300, 420), tail=rng.range(0, 200),
+                                                                  binary=(i == 1)),
+                                  {"fail": "div", "origin": "generated", "long": 1}))
         for i in range(n):
             tag = "g%d_%d" % (rng.below(100000), i)
             if rng.chance(1, 14):
@@ -1181,6 +1233,11 @@ class C18(Prop):
         mk("include-depth-max", case_deep_include("b_deepmax", 31, rng), fail="div")
         mk("include-depth-max-ginc", ["mode ginc"] + case_deep_include("b_deepmaxg", 30), fail="div")
         mk("include-depth-refused", case_deep_include("b_deepref", 32, refuse=True), fail="compile-error")
+        # line tables around 65535 bytes (file_info[0], their size, is an unsigned short): 21 000 / 21 900 / 22 600 runs with
+        # about 22 KB of code; the failing statement is the last code of the program
+        mk("manyruns-3000", case_manyruns("b_runs3k", 3000, tail=50), fail="div", long=1)
+        mk("manyruns-below-64k", case_manyruns("b_runs21k", 21000, tail=20), fail="div", long=1)
+        mk("manyruns-above-64k", case_manyruns("b_runs22k", 21900, tail=100), fail="div", long=1)
         mk("bigtable-12k", case_bigtable("b_bigt12", 8, 500, 40, nincl=10), fail="div", long=1)
         mk("program-too-large", case_toolarge("b_toolarge"), fail="compile-error")
         mk("ginc-init", ["mode ginc"] + case_init("b_ginc_init", pad=5, funcs=1), fail="init")
